@@ -60,10 +60,18 @@ INTEGER_decode_oer(const asn_codec_ctx_t *opt_codec_ctx,
         ASN__DECODE_STARVED;
     }
 
+    /* The whole encoding is available: account for it now */
+    rval.consumed += req_bytes;
+
     if(ct.positive) {
         /* X.969 08/2015 10.2(a) */
         unsigned msb;   /* Most significant bit */
         size_t useful_size;
+
+        /* Remove leading zeros (the padding of a fixed-size encoding). */
+        for(; req_bytes > 1; ptr = (const char *)ptr + 1, req_bytes--) {
+            if(*(const uint8_t *)ptr != 0x0) break;
+        }
 
         /* Check most significant bit */
         msb = *(const uint8_t *)ptr >> 7; /* yields 0 or 1 */
@@ -82,10 +90,26 @@ INTEGER_decode_oer(const asn_codec_ctx_t *opt_codec_ctx,
         st->buf[useful_size] = '\0';    /* Just in case, 0-terminate */
         st->size = useful_size;
 
-        rval.consumed += req_bytes;
         return rval;
     } else {
         /* X.969 08/2015 10.2(b) */
+        const uint8_t *buf = (const uint8_t *)ptr;
+
+        /*
+         * Remove the superfluous sign extension octets, so that
+         * the INTEGER_t holds the canonical (minimal) contents
+         * that the other decoders and INTEGER_compare() expect.
+         */
+        for(; req_bytes > 1; buf++, req_bytes--) {
+            if(buf[0] == 0x0 && (buf[1] & 0x80) == 0) {
+                continue;
+            } else if(buf[0] == 0xff && (buf[1] & 0x80) != 0) {
+                continue;
+            }
+            break;
+        }
+        ptr = buf;
+
         st->buf = (uint8_t *)MALLOC(req_bytes + 1);
         if(!st->buf) {
             ASN__DECODE_FAILED;
@@ -95,7 +119,6 @@ INTEGER_decode_oer(const asn_codec_ctx_t *opt_codec_ctx,
         st->buf[req_bytes] = '\0'; /* Just in case, 0-terminate */
         st->size = req_bytes;
 
-        rval.consumed += req_bytes;
         return rval;
     }
 }
